@@ -73,7 +73,7 @@ def derivative(poly: PolyLike, *diffvars: Union[ndpoly, str, int]) -> ndpoly:
             exponents[:, idx] -= 1
         else:
             exponents = exponents[:1] * 0
-            coefficients = [coefficients[0] * 0]
+            coefficients = [numpy.zeros_like(coefficients[0])]
 
         poly = numpoly.ndpoly.from_attributes(
             exponents=exponents,
